@@ -50,6 +50,29 @@ CLAIMED = {
         'row), candidates are ranked per cell. Subset size, vote shares '
         'and correlation means are values and are not decided.',
         'DESIGN.md section 5, C02'),
+    'C03': (
+        'value identity on symbolic terms over reaching definitions, '
+        'backward data slices, constant folding of the child-count test, '
+        'loop-shape checks (initialisation, multiply-before-store, '
+        'iteration order)',
+        'Decides the structural part of each clause of the arithmetic '
+        'contract, not the numbers: the vote share divides the votes '
+        'gathered by the ranking by the very parameter that bounds the '
+        'vote loop of tally_votes; the mean correlation divides the '
+        'gathered sums by where(votes > 0, votes, 1); candidates are '
+        'ranked per cell in decreasing votes, cut to min(requested, '
+        'candidates), runners-up are columns 1..n-1; duplicate candidate '
+        'names are aggregated before ranking; a runner-up tuple is (name, '
+        'votes > 0, mean correlation, share) of one column and records '
+        'keep the tuples with votes through one filter; a single-child '
+        'parent gets 1.0 / None / None and correlations are inherited '
+        'only under an `is None` test; the aggregate probability starts '
+        'at 1.0 per cell and is multiplied and stored level by level from '
+        'the top; inferred levels are flagged copies without runner-up '
+        'fields. Vote counts, ranges of correlations and sums of shares '
+        'are values and are not decided: a pass does not establish the '
+        'contract.',
+        'DESIGN.md section 6 (C03) and section 15'),
     'C04': (
         'information-flow (order / value taint) abstract interpretation '
         'over the CFG with function summaries; seed provenance; merge-'
@@ -269,10 +292,6 @@ CLAIMED = {
 }
 
 NOT_APPLICABLE = {
-    'C03': 'every clause is arithmetic on runtime vote counts (shares, '
-           'monotone runner-up lists, products, ranges); no shape of the '
-           'code implies them. Its structural crumbs are checked under '
-           'C01/C15.',
     'C11': 'soundness/completeness against an independent Welch/Holm/'
            'penetrance computation is a statement about floating-point '
            'values per pair x gene; merge order / worker independence is '
